@@ -282,7 +282,6 @@ func c09DL(c c09Case, vd *ev.Verdict, fail failer) ev.Verdict {
 		return fail(errs[0].key, "%s (bytes %s)", errs[0].msg, short(enc))
 	}
 	ck := &chk{}
-	nOpt := 0
 	switch {
 	case d.AuthReq != nil:
 		m, g := d.AuthReq, msg.GmmMessage.AuthenticationRequest
@@ -290,7 +289,6 @@ func c09DL(c c09Case, vd *ev.Verdict, fail failer) ev.Verdict {
 		ck.u("TSC", g.SpareHalfOctetAndNgksi.GetTSC(), b2u(m.TSC))
 		ck.b("ABBA", g.ABBA.GetABBAContents(), m.ABBA)
 		if m.RAND != nil {
-			nOpt++
 			r := g.AuthenticationParameterRAND.GetRANDValue()
 			ck.b("RAND", r[:], m.RAND)
 			// the accessors the emulator itself uses (stgutg/ue.go)
@@ -298,12 +296,10 @@ func c09DL(c c09Case, vd *ev.Verdict, fail failer) ev.Verdict {
 			ck.b("RAND (promoted accessor)", r2[:], m.RAND)
 		}
 		if m.AUTN != nil {
-			nOpt++
 			a := g.AuthenticationParameterAUTN.GetAUTN()
 			ck.b("AUTN", a[:], m.AUTN)
 		}
 		if m.EAP != nil {
-			nOpt++
 			ck.b("EAP message", g.EAPMessage.GetEAPMessage(), m.EAP)
 		}
 		vd.NT = m.KSI != 0 && !bytes.Equal(m.ABBA, []byte{0, 0})
@@ -333,31 +329,25 @@ func c09DL(c c09Case, vd *ev.Verdict, fail failer) ev.Verdict {
 				[]uint8{bit(*sc.EIA, 8), bit(*sc.EIA, 7), bit(*sc.EIA, 6), bit(*sc.EIA, 5)})
 		}
 		if m.IMEISVRequest != nil {
-			nOpt++
 			ck.u("IMEISV request value", g.IMEISVRequest.GetIMEISVRequestValue(), m.IMEISVRequest[0]&7)
 		}
 		if m.EPSAlgorithms != nil {
-			nOpt++
 			// TS 24.301 9.9.3.23: bits 7..5 ciphering, bits 3..1 integrity
 			ck.u("EPS ciphering", g.SelectedEPSNASSecurityAlgorithms.GetTypeOfCipheringAlgorithm(), m.EPSAlgorithms[0]>>4&7)
 			ck.u("EPS integrity", g.SelectedEPSNASSecurityAlgorithms.GetTypeOfIntegrityProtectionAlgorithm(), m.EPSAlgorithms[0]&7)
 		}
 		if m.Additional5GSecInfo != nil {
-			nOpt++
 			// 9.11.3.12: bit 2 RINMR, bit 1 HDP
 			ck.u("RINMR", g.Additional5GSecurityInformation.GetRINMR(), bit(m.Additional5GSecInfo[0], 2))
 			ck.u("HDP", g.Additional5GSecurityInformation.GetHDP(), bit(m.Additional5GSecInfo[0], 1))
 		}
 		if m.EAP != nil {
-			nOpt++
 			ck.b("EAP message", g.EAPMessage.GetEAPMessage(), m.EAP)
 		}
 		if m.ABBA != nil {
-			nOpt++
 			ck.b("ABBA", g.ABBA.GetABBAContents(), m.ABBA)
 		}
 		if m.ReplayedS1UESecCap != nil {
-			nOpt++
 			ck.u("replayed S1 EEA0", g.ReplayedS1UESecurityCapabilities.GetEEA0(), bit(m.ReplayedS1UESecCap[0], 8))
 			ck.u("replayed S1 EIA0", g.ReplayedS1UESecurityCapabilities.GetEIA0(), bit(m.ReplayedS1UESecCap[1], 8))
 		}
@@ -411,7 +401,6 @@ func c09DL(c c09Case, vd *ev.Verdict, fail failer) ev.Verdict {
 		if m.SOR != nil {
 			ck.b("SOR", g.SORTransparentContainer.GetSORContent(), m.SOR)
 		}
-		nOpt = -1
 		vd.NT = m.GUTI != nil && m.AllowedNSSAI != nil
 	case d.CUC != nil:
 		m, g := d.CUC, msg.GmmMessage.ConfigurationUpdateCommand
@@ -441,7 +430,6 @@ func c09DL(c c09Case, vd *ev.Verdict, fail failer) ev.Verdict {
 		if m.MICO != nil {
 			ck.u("MICO RAAI", g.MICOIndication.GetRAAI(), m.MICO[0]&1)
 		}
-		nOpt = -1
 		vd.NT = m.GUTI != nil || m.FullName != nil
 	case d.DLNAS != nil:
 		m, g := d.DLNAS, msg.GmmMessage.DLNASTransport
@@ -460,7 +448,6 @@ func c09DL(c c09Case, vd *ev.Verdict, fail failer) ev.Verdict {
 		if m.AdditionalInfo != nil {
 			ck.b("additional information", g.AdditionalInformation.Buffer, m.AdditionalInfo)
 		}
-		nOpt = -1
 		// the N1 SM message inside decodes on its own (what tglib hands on)
 		if m.PayloadType == 1 && len(m.Payload) >= 4 && m.Payload[0] == 0x2E {
 			in, _ := refnas.Identify(m.Payload)
@@ -479,7 +466,6 @@ func c09DL(c c09Case, vd *ev.Verdict, fail failer) ev.Verdict {
 		vd.NT = m.PSI != nil && len(m.Payload) > 255
 	case d.EstAcc != nil:
 		checkEstAcc(ck, d.EstAcc, msg)
-		nOpt = -1
 		vd.NT = d.EstAcc.PDUAddress != nil && len(d.EstAcc.QoSRules) >= 256
 		if d.EstAcc.PDUAddress != nil {
 			vd.Classes = append(vd.Classes, fmt.Sprintf("pdu-address-type:%d", d.EstAcc.PDUAddress[0]&7))
@@ -499,7 +485,6 @@ func c09DL(c c09Case, vd *ev.Verdict, fail failer) ev.Verdict {
 		if m.EPCO != nil {
 			ck.b("ePCO", g.ExtendedProtocolConfigurationOptions.GetExtendedProtocolConfigurationOptionsContents(), m.EPCO)
 		}
-		nOpt = -1
 		vd.NT = m.PSI != 0 && m.Cause != 0
 	case d.SvcAcc != nil:
 		m, g := d.SvcAcc, msg.GmmMessage.ServiceAccept
@@ -515,12 +500,10 @@ func c09DL(c c09Case, vd *ev.Verdict, fail failer) ev.Verdict {
 		if m.EAP != nil {
 			ck.b("EAP message", g.EAPMessage.GetEAPMessage(), m.EAP)
 		}
-		nOpt = -1
 		vd.NT = m.PDUSessionStatus != nil || m.ReactivationResult != nil
 	case d.Dereg:
 		vd.NT = true
 	}
-	_ = nOpt
 	if len(ck.errs) > 0 {
 		return fail("accessor:"+firstWord(ck.errs[0]), "%s (bytes %s)", ck.errs[0], short(enc))
 	}
